@@ -44,6 +44,7 @@ def bounds(tier):
         "obs_kinds": ["vector", "discrete"] if q else ["vector", "image", "dict", "tuple", "discrete"],
         "share_encoders": SHARE,
         "depth": "<=1 full alphabet + depth 2 (full x reduced)" if q else "<=2 full alphabet + depth 3 (reduced x reduced x reduced)",
+        "agent_wrapper": "RSNorm(DQN), RSNorm(DDPG): all histories over {A(act, moves statistics), L, K} of length <=2",
         "probe_ops": ["L on C1", "L on P (same batch+seed)", "Mp on C2", "Mh on C1", "Ma on P", "discard C2 + gc"],
     }
 
@@ -64,6 +65,8 @@ def configs(tier):
 
 def tasks(tier, seed):
     out = []
+    for algo, share in (("DQN", None), ("DDPG", True)):
+        out.append({"algo": algo, "kind": "vector", "share": share, "wrapper": "RSNorm", "tier": tier, "first": None, "_cost": 8})
     for cfg in configs(tier):
         cost = 3 if cfg["algo"] in A.MULTI else 1
         out.append({**cfg, "tier": tier, "first": None, "_cost": cost})          # the empty history
@@ -376,10 +379,75 @@ def check_history(p: Partial, cfg, hist):
     probe("learn-after-discard", "C1", do_learn)
 
 
+def check_wrapper(p: Partial, cfg, hist):
+    """agent-wrapper variant (RSNorm): histories over A (act in training mode: moves the running statistics), L (learn
+    through the wrapper), K (continue with a clone); the clone must carry equal statistics and share none of them"""
+    from . import c07  # lazy: c07 imports this module
+
+    algo = cfg["algo"] + "+" + cfg["wrapper"]
+    rp = {**cfg, "history": hist}
+    p.evaluations += 1
+    p.traces += 1
+    W = c07.build(cfg)
+    for i, op in enumerate(hist):
+        W = c07.apply_op(W, op, cfg, i + 1)
+        p.transitions += 1
+    try:
+        C1, C2 = W.clone(), W.clone()
+    except Exception as e:
+        p.viol(f"{algo}/clone/exception/{type(e).__name__}", f"wrapper clone after {hist} raised {e!r}"[:300], rp)
+        return
+    p._states.add((algo, tuple(hist)))
+    p.dg(algo, hist, repr({k: v.tolist() for k, v in c07.rms_state(W).items()}))
+    for name, C in (("C1", C1), ("C2", C2)):
+        if type(C) is not type(W):
+            p.viol(f"{algo}/clone/faithful/wrapper-class", f"{name} is a {type(C).__name__}", rp)
+            return
+        a, b = c07.rms_state(W), c07.rms_state(C)
+        if sorted(a) != sorted(b) or any(not np.array_equal(a[k], b[k]) for k in a):
+            p.viol(f"{algo}/clone/faithful/wrapper-statistics", f"{name} after {hist}: running statistics differ from the parent's", rp)
+    # (the wrapper patches the inner agent's get_action and moves its statistics in training mode: probe in eval mode)
+    for w in (W, C1, C2):
+        c07.inner(w).set_training_mode(False)
+    for name, C in (("C1", C1), ("C2", C2)):
+        faithful(p, c07.inner(W), c07.inner(C), {**cfg, "algo": cfg["algo"]}, hist, name)
+    for w in (W, C1, C2):
+        c07.inner(w).set_training_mode(True)
+    fam = {"P": W, "C1": C1, "C2": C2}
+
+    def rms_ptrs(w):
+        r = w.obs_rms
+        return {id(r)} | {getattr(r, f).untyped_storage().data_ptr() for f in ("mean", "var", "count") if isinstance(getattr(r, f, None), torch.Tensor)}
+
+    for (na, a), (nb, b) in itertools.combinations(fam.items(), 2):
+        if rms_ptrs(a) & rms_ptrs(b):
+            p.viol(f"{algo}/clone/independent/shared-storage/wrapper-statistics", f"{na} and {nb} share their running statistics after {hist}", rp)
+        for h in sorted({O.classify_tensor_name(x[0]) for x in O.shared_storage(c07.inner(a), c07.inner(b))}):
+            p.viol(f"{algo}/clone/independent/shared-storage/{h}", f"{na} and {nb} share {h} after {hist}", rp)
+    for opname in ("A", "L"):
+        before = {k: (O.fingerprint(c07.inner(w)), repr({x: v.tolist() for x, v in c07.rms_state(w).items()})) for k, w in fam.items() if k != "C1"}
+        fam["C1"] = c07.apply_op(fam["C1"], opname, cfg, 77)
+        for k, (fp0, r0) in before.items():
+            if repr({x: v.tolist() for x, v in c07.rms_state(fam[k]).items()}) != r0:
+                p.viol(f"{algo}/clone/independent/bystander-changed/{opname}/wrapper-statistics", f"{opname} on C1 changed the running statistics of {k} after {hist}", rp)
+            d = O.fp_diff(fp0, O.fingerprint(c07.inner(fam[k])))
+            if d:
+                p.viol(f"{algo}/clone/independent/bystander-changed/{opname}/{O.classify_tensor_name(d[0]) if ':' in d[0] else d[0]}", f"{opname} on C1 changed {k}: {d[:3]}", rp)
+
+
 def run_task(task):
     p = Partial()
     p._states = set()
     cfg = {k: task[k] for k in ("algo", "kind", "share")}
+    if task.get("wrapper"):
+        cfg["wrapper"] = task["wrapper"]
+        hists = [task["history"]] if "history" in task else [[]] + [[a] for a in "ALK"] + [[a, b] for a in "ALK" for b in "ALK"]
+        for h in hists:
+            check_wrapper(p, cfg, h)
+        p.sample({"config": cfg, "history": hists[-1]})
+        p.states = len(p._states)
+        del p._states
+        return p
     if "history" in task:  # replay
         check_history(p, cfg, task["history"])
         p.states = len(p._states)
